@@ -68,8 +68,15 @@ def pick(ctx, n):
 def explore(ctx, n, nlayouts, compare=True):
     inputs = pick(ctx, n)
     results = []
-    for name, perm, bs, nj in layouts(ctx, inputs, nlayouts):
-        tr = pipeline.traced_run([inputs[i] for i in perm], n_jobs=nj, batch_size=bs)
+    for li, (name, perm, bs, nj) in enumerate(layouts(ctx, inputs, nlayouts)):
+        rows = [inputs[i] for i in perm]
+        if li % 2 == 1:
+            # dictionary rows that carry their own `id` column (the original position): after a permutation or in a later
+            # batch the caller's id differs from the row's position, which must not matter
+            rows = [{"reaction": inputs[i], "id": i} for i in perm]
+            ctx.count("layout:dict-rows-with-own-id")
+        tr = pipeline.traced_run(rows, n_jobs=nj, batch_size=bs)
+        tr["inputs"] = [inputs[i] for i in perm]
         if compare:
             pipeline.compare_trace(ctx, tr)
         ctx.count("layout:n_jobs=%s" % nj)
